@@ -39,6 +39,12 @@ def units(tier):
         for i in range(0, len(ys), 2):
             for rep in pools.REPS:
                 us.append(("days", kind, rep, ys[i:i + 2]))
+    # the same arithmetic in mode A, then B, then A again within one process: the result must be a valid date of the
+    # *active* mode (a memoised month length or week count of the previous mode must not leak into the clamp)
+    for a in A.KINDS:
+        for b in A.KINDS:
+            if a != b:
+                us.append(("switch", a, b))
     return us
 
 
@@ -179,7 +185,36 @@ def check_point(ctx, kind, c, pdesc, boundary, tier):
                               impl.sstr(parts), impl.sstr(q))
 
 
+SWITCH_YEARS = (2003, 2004, 2005, 2006, 2007, 2008, 2009)
+
+
+def run_switch(unit, ctx):
+    _, ka, kb = unit
+    orig = ctx.violation
+
+    def tagged(oracle, sig, case, want, got):
+        cs = dict(case() if callable(case) else case)
+        cs["history"] = [ka, kb]
+        orig(oracle, dict(sig, after_switch=True), cs, want, got)
+    ctx.violation = tagged
+    try:
+        for kind in (ka, kb, ka):
+            impl.set_mode(A.MODE_OF[kind])
+            c = M.cal(kind)
+            for y in SWITCH_YEARS:
+                for doy in A.days_boundary(c, y):
+                    dn = c.dn_from_ord(y, doy)
+                    for rep in pools.REPS:
+                        pdesc = {"rep": rep, "f": list(c.from_dn(rep, dn)), "t": TIMES[0], "tz": [0, 0]}
+                        ctx.state_count += 1
+                        check_point(ctx, kind, c, pdesc, True, ctx.tier)
+    finally:
+        ctx.violation = orig
+
+
 def run_unit(unit, ctx):
+    if unit[0] == "switch":
+        return run_switch(unit, ctx)
     _, kind, rep, ys = unit
     impl.set_mode(A.MODE_OF[kind])
     c = M.cal(kind)
@@ -205,6 +240,8 @@ def run_unit(unit, ctx):
 
 
 def replay_case(case, ctx):
+    if case.get("history"):
+        return run_switch(("switch", case["history"][0], case["history"][1]), ctx)
     kind = case["mode"]
     impl.set_mode(A.MODE_OF[kind])
     check_point(ctx, kind, M.cal(kind), case["p"], True, "thorough")
